@@ -277,6 +277,63 @@ class FeatureInfoPoint(Harness):
         return AND(ok, len(sent) == 1, sent[0] is q)
 
 
+class TransformedInfoQuery(Harness):
+    """GetFeatureInfo for a client SRS the upstream does not support: the forwarded query (other SRS, other rectangle, other
+    size, other pixel) addresses the ground point the client clicked, within one upstream pixel.  The projection (proj, FFI)
+    is replaced by an axis-aligned affine map -- the class of maps for which "same ground point" can be stated exactly;
+    request origin and click are solver variables, pixel shapes (incl. non-square request pixels) are enumerated."""
+    modules = ['mapproxy.grid', 'mapproxy.layer', 'mapproxy.client.wms']
+    functions = ['WMSInfoClient._get_transformed_query', 'InfoQuery.coord', 'make_lin_transf']
+
+    @classmethod
+    def build(cls, L, cfg):
+        return dict(ly=L.mods['mapproxy.layer'], cl=L.mods['mapproxy.client.wms'])
+
+    @classmethod
+    def inputs(cls, ctx, cfg):
+        W, H = cfg['size']
+        x0, y0 = real_var('x0'), real_var('y0')
+        i, j = int_var('i'), int_var('j')
+        assume(AND(x0 >= -10 ** 7, x0 <= 10 ** 7, y0 >= -10 ** 7, y0 <= 10 ** 7, i >= 0, j >= 0, i < W, j < H))
+        return dict(x0=x0, y0=y0, i=i, j=j)
+
+    @classmethod
+    def prop(cls, ctx, cfg, x0, y0, i, j):
+        ly, cl = ctx['ly'], ctx['cl']
+        W, H = cfg['size']
+        rx, ry = cfg['pixel']            # ground size of a request pixel in x and y
+        sx, sy, ox, oy = cfg['affine']   # the "projection": X = sx*x + ox, Y = sy*y + oy
+        bbox = (x0, y0, x0 + W * rx, y0 + H * ry)
+
+        class SrsA(object):
+            srs_code = 'A'
+
+            def transform_bbox_to(self, other, b):
+                return (sx * b[0] + ox, sy * b[1] + oy, sx * b[2] + ox, sy * b[3] + oy)
+
+            def transform_to(self, other, p):
+                return (sx * p[0] + ox, sy * p[1] + oy)
+        a_srs, b_srs = SrsA(), type('SrsB', (), {'srs_code': 'B'})()
+
+        class Sup(object):
+            def best_srs(self, srs):
+                return b_srs
+
+            def __contains__(self, srs):
+                return srs is b_srs
+        c = cl.WMSInfoClient.__new__(cl.WMSInfoClient)
+        c.supported_srs = Sup()
+        q = ly.InfoQuery(bbox, (W, H), a_srs, (i, j), 'text/plain')
+        out = c._get_transformed_query(q)
+        # ground point the client clicked (upper left corner of pixel (i, j), the convention of InfoQuery.coord), projected
+        gx, gy = sx * (x0 + i * rx) + ox, sy * (y0 + (H - j) * ry) + oy
+        ux, uy = out.coord
+        px = (out.bbox[2] - out.bbox[0]) / out.size[0]
+        py = (out.bbox[3] - out.bbox[1]) / out.size[1]
+        ok = AND(out.srs is b_srs, out.size[0] >= 1, out.size[1] >= 1)
+        return AND(ok, ux - gx <= px, gx - ux <= px, uy - gy <= py, gy - uy <= py)
+
+
 CANARIES = [
     ('mosaic rows pasted bottom-up', 'Mosaic', {'mapproxy.image.tile': [(
         "                i//self.tile_grid[0]*self.tile_size[1])", "                (len(range(self.tile_grid[1])) - 1 - i//self.tile_grid[0])*self.tile_size[1])")]},
@@ -319,6 +376,16 @@ def obligations(tier, seed):
         tcfgs += [dict(res=0.0001, src_size=[512, 256], dst_size=[1, 1]), dict(res=1222.99, src_size=[768, 768], dst_size=[512, 256])]
     for c in tcfgs:
         specs.append(spec(MOD, 'TransformSimple', 'transform-simple/src%dx%d/dst%dx%d@%s' % (c['src_size'][0], c['src_size'][1], c['dst_size'][0], c['dst_size'][1], c['res']), cfg=c, cost=5))
+    ficfgs = [dict(size=[400, 200], pixel=[2.5, 5.0], affine=[1.0, 1.0, 0.0, 0.0]), dict(size=[256, 256], pixel=[10.0, 10.0], affine=[0.5, 0.5, 100.0, -7.0]),
+              dict(size=[300, 500], pixel=[4.0, 1.0], affine=[2.0, 0.25, -1000.0, 30.0])]
+    if tier == 'thorough':
+        ficfgs += [dict(size=[17, 600], pixel=[3.0, 3.0], affine=[1.5, 1.5, 0.0, 0.0]), dict(size=[512, 100], pixel=[0.5, 2.0], affine=[111320.0, 110540.0, 0.0, 0.0])]
+    for c in ficfgs:
+        specs.append(spec(MOD, 'TransformedInfoQuery', 'feature-info-other-srs/%dx%d/pixel%sx%s/affine%s' % (c['size'][0], c['size'][1], c['pixel'][0], c['pixel'][1], c['affine'][:2]), cfg=c, cost=5))
+    specs.append(spec(MOD, 'TransformedInfoQuery', 'twin/TransformedInfoQuery', kind='witness', cfg=ficfgs[0]))
+    specs.append(spec(MOD, 'TransformedInfoQuery', 'canary/clicked row scaled with the column resolution', kind='canary', cfg=ficfgs[0],
+                      patches={'mapproxy.client.wms': [["        req_coord = make_lin_transf((0, 0, query.size[0], query.size[1]), req_bbox)(query.pos)",
+                                                        "        req_coord = make_lin_transf((0, 0, query.size[0], query.size[0]), req_bbox)(query.pos)"]]}))
     twins = dict(Mosaic=dict(grid='utm_ll', level=2), TransformSimple=tcfgs[0], SingleTile=dict(grid='utm_ul', level=2),
                  FeatureInfoPoint=dict(grid='merc_ll', level=2))
     for h, c in twins.items():
@@ -343,9 +410,10 @@ META = dict(
                 'one tile returns the tile object itself; (d) WMTS GetFeatureInfo uses the rectangle of the addressed tile '
                 '(north-west addressing on either grid origin), InfoQuery.coord lies inside the clicked pixel, and a same-SRS WMS '
                 'info client forwards bbox/size/pixel unchanged.',
-    functions=sorted(set(Mosaic.functions + TransformSimple.functions + SingleTile.functions + FeatureInfoPoint.functions)),
+    functions=sorted(set(Mosaic.functions + TransformSimple.functions + SingleTile.functions + FeatureInfoPoint.functions + TransformedInfoQuery.functions)),
     bounds='request rectangles up to 1.6 (thorough 2.5) tile spans; output/source resolutions within a factor 2; enumerated grids, levels and sizes',
-    outside='reprojection between different SRS (pyproj FFI, transform_meshes error budget), PIL resampling kernels, WMS 1.3.0 axis-order switching, '
+    outside='reprojection between different SRS (pyproj FFI, transform_meshes error budget; the feature-info transfer to another SRS is checked with '
+            'the projection replaced by axis-aligned affine maps), PIL resampling kernels, WMS 1.3.0 axis-order switching, '
             'sub-extent placement in CacheMapLayer.get_map (bbox_position_in_image is executed under C17), upstream tile URL templates',
     assumptions=['PIL Image.crop(box) and Image.transform(size, EXTENT, data) box semantics (pixel centre sampling)', 'float as exact rational'],
     trusted_base=['z3 5.1', 'engine/symex.py'],
